@@ -26,6 +26,8 @@ types go through prepare_to_read_rdata only;
 (the Ok return is guarded by a length equation over len(buf), cursor and the on-the-wire name lengths) and never uses an
 uncompressed length (wire_repr().len()) as an offset into the message;
 (e) looping validators consume everything: validate_as_opt / validate_as_txt return Ok only with offset >= len.
+(f) pointer width: the writer builds compression pointers only through HintPointer::new, which answers Some only for
+offsets <= 16383, so `0xc000 | p` decodes back to p (a necessary condition of the compressed write-then-read round trip).
 Not decided: "accepts exactly what the RFC allows" and the write-then-read round trip (value-level).
 """
 ASSUMPTIONS = ['every CFG path is assumed feasible', 'unsafe DST construction of Name (name/mod.rs) is trusted', 'std Vec/slice APIs behave as documented']
@@ -240,6 +242,11 @@ def check(R, F):
     R.floor('summary', 14)
     check_tables(R, F)
     check_readers(R, F, S)
+    # (f) a structural necessary condition of "written with compression reads back the same": the pointer the writer
+    # emits for an RDATA name decodes to the offset it was made from, i.e. that offset fits the 14 bits (seed C18-e)
+    from rules import c13
+    c13.check_pointer_14bit(R, F, 'pointer-width')
+    R.floor('pointer-width', 1)
     # accessor premise of the length modelling: Rdata::len() is octets.len()
     ln = F.fn('rr::rdata::Rdata::len')
     txt = [paths.show_operand(ln, st['rv']['op']) for blk in ln.blocks for st in blk['stmts'] if st['k'] == 'assign' and not st['lhs']['p'] and st['lhs']['l'] == 0 and st['rv']['k'] == 'use']
